@@ -7,7 +7,7 @@ use crate::trk::Kind;
 use serde_json::Value;
 
 pub fn check_history(h: &History) -> CaseResult {
-    let st = run_monitored(h, Flags { c01: true, c03: false, c13: false, margins: false })?;
+    let st = run_monitored(h, Flags { c01: true, c03: false, c13: false, margins: false, group_batches: true })?;
     Ok(CaseOk::new(st.crowded_calls > 0)
         .label(h.cfg.kind.name())
         .label_if(st.continuations > 0, "has_continuations")
